@@ -177,23 +177,105 @@ theorem inst_substI (m : List (String × Ty)) (τ : List Ty) : ∀ S : Ty, S.has
     intro a ha
     simpa using ih a ha (by simpa using h a ha)
 
+-- ---------------------------------------------------------------- reserved names, instantiation of `defs` types
+
+@[simp] theorem Ty.hasReservedL_eq (as : List Ty) : Ty.hasReservedL as = as.any Ty.hasReserved := by
+  induction as with
+  | nil => rfl
+  | cons a as ih => simp [Ty.hasReservedL, ih]
+
+@[simp] theorem Ty.instSL_eq_map (m : List (String × Ty)) (as : List Ty) : Ty.instSL m as = as.map (Ty.instS m) := by
+  induction as with
+  | nil => rfl
+  | cons a as ih => simp [Ty.instSL, ih]
+
+/-- a type that passes the `given` check has no internal variable -/
+theorem noInt_of_not_reserved : ∀ T : Ty, T.hasReserved = false → T.NoInt := by
+  intro T
+  induction T using Ty.induction with
+  | htv n => intro _; simp [Ty.NoInt, Ty.internals]
+  | hsv n =>
+    cases n with
+    | user s => intro _; simp [Ty.NoInt, Ty.internals]
+    | internal k => intro h; simp [Ty.hasReserved] at h
+  | hcon c as ih =>
+    intro h
+    simp only [Ty.hasReserved, Ty.hasReservedL_eq, List.any_eq_false] at h
+    simp only [Ty.NoInt, Ty.internals_con, List.flatMap_eq_nil_iff]
+    intro a ha
+    exact ih a ha (by simpa using h a ha)
+
+theorem instS_bounded {m : List (String × Ty)} {n : Nat} (hm : ∀ v T, m.lookup v = some T → T.Bounded n) :
+    ∀ D : Ty, D.NoInt → (D.instS m).Bounded n := by
+  intro D
+  induction D using Ty.induction with
+  | htv v => intro _ j hj; simp [Ty.instS, Ty.internals] at hj
+  | hsv s =>
+    cases s with
+    | internal k => intro h; simp [Ty.NoInt] at h
+    | user v =>
+      intro _
+      simp only [Ty.instS]
+      cases h : m.lookup v with
+      | none => intro j hj; simp [Ty.internals] at hj
+      | some T => simpa using hm v T h
+  | hcon c as ih =>
+    intro h j hj
+    simp only [Ty.NoInt, Ty.internals_con, List.flatMap_eq_nil_iff] at h
+    simp only [Ty.instS, Ty.instSL_eq_map, Ty.internals_con, List.mem_flatMap, List.mem_map] at hj
+    obtain ⟨_, ⟨a, ha, rfl⟩, hj⟩ := hj
+    exact ih a ha (h a ha) j hj
+
+theorem instS_substI (m : List (String × Ty)) (τ : List Ty) : ∀ D : Ty, D.NoInt →
+    (D.instS m).substI τ = D.instS (m.map (fun p => (p.1, p.2.substI τ))) := by
+  intro D
+  induction D using Ty.induction with
+  | htv v => intro _; simp [Ty.instS]
+  | hsv s =>
+    cases s with
+    | internal k => intro h; simp [Ty.NoInt] at h
+    | user v =>
+      intro _
+      simp only [Ty.instS]
+      rw [lookup_map_snd m v (Ty.substI τ)]
+      cases m.lookup v <;> simp
+  | hcon c as ih =>
+    intro h
+    simp only [Ty.NoInt, Ty.internals_con, List.flatMap_eq_nil_iff] at h
+    simp only [Ty.instS, Ty.instSL_eq_map, Ty.substI_con, List.map_map, Ty.con.injEq, true_and]
+    apply List.map_congr_left
+    intro a ha
+    simpa using ih a ha (h a ha)
+
+theorem instS_nil : ∀ D : Ty, D.instS [] = D := by
+  intro D
+  induction D using Ty.induction with
+  | htv v => simp [Ty.instS]
+  | hsv s => cases s <;> simp [Ty.instS]
+  | hcon c as ih =>
+    simp only [Ty.instS, Ty.instSL_eq_map, Ty.con.injEq, true_and]
+    conv => rhs; rw [← List.map_id as]
+    exact List.map_congr_left (fun a ha => by simpa using ih a ha)
+
 -- ---------------------------------------------------------------- syntactic relation skeleton ↦ filled skeleton
 
 /-- what `infer` does to the skeleton, before the final substitution (`ic`, `isc`: final `incr_ctxt`s) -/
 inductive Pre (ctx : Ctx) (ic isc : List (String × Ty)) : Skel → Skel → Prop where
-  | varAnn (n : String) (A : Ty) : Pre ctx ic isc (.var n (some A)) (.var n (some A))
-  | varDecl (n : String) (T : Ty) : ctx.vars.lookup n = some T → Pre ctx ic isc (.var n none) (.var n (some T))
+  | varAnn (n : String) (A : Ty) : A.NoInt → Pre ctx ic isc (.var n (some A)) (.var n (some A))
+  | varDecl (n : String) (T : Ty) : ctx.vars.lookup n = some T → T.NoInt → Pre ctx ic isc (.var n none) (.var n (some T))
   | varInc (n : String) (T : Ty) : ctx.vars.lookup n = none → ic.lookup n = some T →
       Pre ctx ic isc (.var n none) (.var n (some T))
-  | svarAnn (n : String) (A : Ty) : Pre ctx ic isc (.svar n (some A)) (.svar n (some A))
-  | svarDecl (n : String) (T : Ty) : ctx.svars.lookup n = some T → Pre ctx ic isc (.svar n none) (.svar n (some T))
+  | svarAnn (n : String) (A : Ty) : A.NoInt → Pre ctx ic isc (.svar n (some A)) (.svar n (some A))
+  | svarDecl (n : String) (T : Ty) : ctx.svars.lookup n = some T → T.NoInt → Pre ctx ic isc (.svar n none) (.svar n (some T))
   | svarInc (n : String) (T : Ty) : ctx.svars.lookup n = none → isc.lookup n = some T →
       Pre ctx ic isc (.svar n none) (.svar n (some T))
-  | constAnn (n : String) (A : Ty) : Pre ctx ic isc (.const n (some A)) (.const n (some A))
+  | constAnn (n : String) (A : Ty) : A.NoInt → Pre ctx ic isc (.const n (some A)) (.const n (some A))
+  | constDef (n : String) (D : Ty) (m : List (String × Ty)) : ctx.defs.lookup n = some D → D.NoInt →
+      Pre ctx ic isc (.const n none) (.const n (some (D.instS m)))
   | constSig (n : String) (S : Ty) (m : List (String × Ty)) : ctx.sig.lookup n = some S → S.hasStvar = false →
       Pre ctx ic isc (.const n none) (.const n (some (S.inst m)))
   | comb {f f' a a' : Skel} : Pre ctx ic isc f f' → Pre ctx ic isc a a' → Pre ctx ic isc (.comb f a) (.comb f' a')
-  | absAnn (x : String) (A : Ty) {b b' : Skel} : Pre ctx ic isc b b' →
+  | absAnn (x : String) (A : Ty) {b b' : Skel} : A.NoInt → Pre ctx ic isc b b' →
       Pre ctx ic isc (.abs x (some A) b) (.abs x (some A) b')
   | absNew (x : String) (T : Ty) {b b' : Skel} : Pre ctx ic isc b b' →
       Pre ctx ic isc (.abs x none b) (.abs x (some T) b')
@@ -203,16 +285,17 @@ theorem Pre.mono {ctx : Ctx} {ic isc ic' isc' : List (String × Ty)} {t t' : Ske
     (h1 : ∀ n T, ic.lookup n = some T → ic'.lookup n = some T)
     (h2 : ∀ n T, isc.lookup n = some T → isc'.lookup n = some T) : Pre ctx ic' isc' t t' := by
   induction h with
-  | varAnn n A => exact .varAnn n A
-  | varDecl n T h => exact .varDecl n T h
+  | varAnn n A h => exact .varAnn n A h
+  | varDecl n T h hn => exact .varDecl n T h hn
   | varInc n T h hh => exact .varInc n T h (h1 n T hh)
-  | svarAnn n A => exact .svarAnn n A
-  | svarDecl n T h => exact .svarDecl n T h
+  | svarAnn n A h => exact .svarAnn n A h
+  | svarDecl n T h hn => exact .svarDecl n T h hn
   | svarInc n T h hh => exact .svarInc n T h (h2 n T hh)
-  | constAnn n A => exact .constAnn n A
+  | constAnn n A h => exact .constAnn n A h
+  | constDef n D m h hn => exact .constDef n D m h hn
   | constSig n S m h hs => exact .constSig n S m h hs
   | comb _ _ ih1 ih2 => exact .comb ih1 ih2
-  | absAnn x A _ ih => exact .absAnn x A ih
+  | absAnn x A h _ ih => exact .absAnn x A h ih
   | absNew x T _ ih => exact .absNew x T ih
   | bound i => exact .bound i
 
